@@ -30,7 +30,10 @@ vars == <<n, P, Q, ph>>
 
 C0 == <<0, 0>>                       \* likelihood 1
 \* ids 0..49: likelihood 2^-i; 51..98: likelihood 2^(i-50) > 1 (unnormalised models, negative cost); 99: likelihood 0
-CostOf(i) == IF i = 99 THEN <<1, 0>> ELSE IF i > 50 THEN <<0, 50 - i>> ELSE <<0, i>>
+\* ids 100 + 10 a + b: log-likelihood -(1000 a + b) ln 2 handed over directly as a logarithm (far below ln 1e-300 for a >= 1: a
+\* logarithm has no floor - a Gaussian residual of 30 sigma is an ordinary value)
+CostOf(i) == IF i = 99 THEN <<1, 0>> ELSE IF i >= 100 THEN <<0, 1000 * ((i - 100) \div 10) + (i % 10)>>
+             ELSE IF i > 50 THEN <<0, 50 - i>> ELSE <<0, i>>
 PCost == {CostOf(i) : i \in PCostIds}
 QCost == {CostOf(i) : i \in QCostIds}
 CAdd(a, b) == <<a[1] + b[1], a[2] + b[2]>>
